@@ -1541,7 +1541,7 @@ func runeLoops(w *World, f *ssa.Function, ctx *symCtx, runeOf func(v ssa.Value) 
 				}
 			}
 		}
-		if ranged {
+		if ranged || countedLoop(l) {
 			continue
 		}
 		// candidates for "the rune of this iteration"
@@ -1778,4 +1778,62 @@ func alphaFallback(w *World, fd *ast.FuncDecl, insp func(ast.Node, func(ast.Node
 		}
 	}
 	return out
+}
+
+// countedLoop: `for i := a; i < n; i++` — the header leaves the loop on a test
+// of a counter against a bound computed outside the loop, and every way round
+// adds a positive constant to the counter.  Such a loop ends by itself.
+func countedLoop(l ssaLoop) bool {
+	body := l.body()
+	iff, ok := l.Header.Instrs[len(l.Header.Instrs)-1].(*ssa.If)
+	if !ok {
+		return false
+	}
+	cmp, ok := iff.Cond.(*ssa.BinOp)
+	if !ok || (cmp.Op != token.LSS && cmp.Op != token.LEQ && cmp.Op != token.GTR && cmp.Op != token.GEQ && cmp.Op != token.NEQ) {
+		return false
+	}
+	var outside func(v ssa.Value) bool
+	outside = func(v ssa.Value) bool {
+		switch x := v.(type) {
+		case *ssa.Const, *ssa.Parameter:
+			return true
+		case *ssa.Call:
+			// len(x) of something fixed before the loop (strings and arrays do not change; a slice header is a value)
+			if bi, ok := x.Call.Value.(*ssa.Builtin); ok && bi.Name() == "len" && len(x.Call.Args) == 1 && outside(x.Call.Args[0]) {
+				return true
+			}
+			return !body[x.Block()]
+		case ssa.Instruction:
+			return !body[x.Block()]
+		}
+		return false
+	}
+	for _, pair := range [][2]ssa.Value{{cmp.X, cmp.Y}, {cmp.Y, cmp.X}} {
+		phi, ok := pair[0].(*ssa.Phi)
+		if !ok || phi.Block() != l.Header || !outside(pair[1]) {
+			continue
+		}
+		stepped := true
+		for i, e := range phi.Edges {
+			if !body[phi.Block().Preds[i]] {
+				continue
+			}
+			bo, ok := e.(*ssa.BinOp)
+			if !ok || bo.Op != token.ADD || bo.X != ssa.Value(phi) {
+				stepped = false
+				break
+			}
+			if k, ok := intConstOf(bo.Y); !ok || k <= 0 {
+				stepped = false
+			}
+		}
+		if stepped && (cmp.Op == token.LSS || cmp.Op == token.LEQ) && pair[0] == cmp.X {
+			return true
+		}
+		if stepped && (cmp.Op == token.GTR || cmp.Op == token.GEQ) && pair[0] == cmp.Y {
+			return true
+		}
+	}
+	return false
 }
